@@ -315,7 +315,7 @@ def add_thermal_island(rng, s):
     return s
 
 
-def gen_heat_loop(rng, n_cons=None, modes=None, with_hex=True, makeup=False):
+def gen_heat_loop(rng, n_cons=None, modes=None, with_hex=True, makeup=False, recirc=False):
     """district heating loop: circulation pump feeds a flow line, consumers / exchangers connect flow
     and return line rungs (ladder network)."""
     k = int(n_cons or rng.integers(1, 6))
@@ -388,6 +388,11 @@ def gen_heat_loop(rng, n_cons=None, modes=None, with_hex=True, makeup=False):
     else:
         s["circ_pumps_p"].append({"return": 1, "flow": 0, "p_flow_bar": 6.0, "plift_bar": float(rng.uniform(1.0, 3.0)),
                                   "t_flow_k": t_flow, "in_service": True})
+    if recirc and not pump_mass:
+        # recirculation: a prescribed flow from the far end of the return line straight back into the pump's flow junction, where
+        # it mixes with the pump's outlet stream (the flow junction then has two inflows of different temperature)
+        s["flow_controls"].append({"from": 2 * k + 1, "to": 0, "mdot": float(rng.uniform(0.05, 0.3)), "control_active": True,
+                                   "in_service": True})
     if makeup:
         # make-up supply: one or two ext grids on the circulation pump's flow junction (same set-points as the pump) and a
         # small net consumption somewhere in the loop, which only the ext grids can feed
